@@ -19,7 +19,10 @@ def run(tier):
                       "truncation point and every shape scalar read overwritten with 0, 1, max/2+1, max-1, max. The harness "
                       "applies them, reads and walks the damaged table again under a step budget, re-reads every 4th on a second "
                       "thread from an odd address (same digest required) and drives the lookup helpers / glyph loading of the "
-                      "damaged font on every 8th.")
+                      "damaged font on every 8th. CmapIter.tla (clamping rule of the cmap 4 / 12 iterators: strictly ascending yields for every "
+                      "list of <= 3 overlapping / contained / descending groups) and PackedHostile.tla (every packed-delta stream of "
+                      "<= 3 control/data bytes behind private point lists) enumerate hostile inputs for two hand-written decoders; "
+                      "the raw tables are iterated by the real code under a deadline.")
     ck.assumptions = ["tables are exercised through the instances that occur in the corpus (evidence: tables_seen); CFF/CFF2 have "
                       "no traversal impl and are reached through glyph loading only",
                       "a walk cut by the step budget is not a violation (full unfolding of a DAG may legitimately be large); a "
@@ -60,6 +63,37 @@ def run(tier):
         res = vlib.run_harness("fv-total", ["c01", "mutate", "--sessions", side, "--muts", muts, "--drive-every", 8 if tier == "quick" else 4,
                                             "--out", os.path.join(wd, "mut.ndjson")], timeout=3400)
         ck.add_harness("replay:mutations", res, traces=False)
+    # hand-written decoders: model-enumerated hostile inputs
+    cases = os.path.join(wd, "iter_cases.out")
+    with open(cases, "w") as out:
+        for c in ("4", "12"):
+            r = vlib.run_tlc(wd, "CmapIterMC", cfg="CmapIterMC_%s.cfg" % c, workers=4, timeout=900, out_name="cmapiter_%s.out" % c)
+            ck.add_tlc("tlc:CmapIter:" + c, r)
+            if not r.ok:
+                ck.spec_error("CmapIterMC", r)
+            out.writelines(l for l in open(r.out, errors="replace") if l.startswith('<<"ITER"'))
+            os.remove(r.out)
+    t3 = os.path.join(wd, "cmapiter.ndjson")
+    res = vlib.run_harness("fv-total", ["c01", "cmapiter", "--cases", cases, "--out", t3])
+    ck.add_harness("replay:cmapiter", res, traces=False)
+    r = vlib.run_tlc(wd, "PackedHostile", cfg="PackedHostile.cfg", workers=4, timeout=900)
+    ck.add_tlc("tlc:PackedHostile", r)
+    if not r.ok:
+        ck.spec_error("PackedHostile", r)
+    t4 = os.path.join(wd, "packed.ndjson")
+    res = vlib.run_harness("fv-total", ["c01", "packed", "--cases", r.out, "--out", t4])
+    ck.add_harness("replay:packed", res, traces=False)
+    os.remove(r.out)
+    t5 = os.path.join(wd, "decoders.ndjson")
+    with open(t5, "w") as out:
+        for t in (t3, t4):
+            out.write(open(t).read())
+    ok, info = vlib.validate_trace(wd, "ReadTrace", t5, timeout=1800)
+    ck.cov["parts"]["validate:decoders"] = info
+    if ok:
+        ck.cov["traces_validated_against_impl"] += info.get("events", 0)
+    else:
+        ck.violation("ReadTrace rejected a decoder observation: %s" % info.get("rejected", "")[:1200], {"kind": "read-trace", "trace": t5})
     return ck.finish()
 
 
